@@ -37,7 +37,7 @@ RULE = (
     "JSON results must be identical.  Non-trivial: >=3 object leaves and the source optimum has positive cost; distinct by SHA-1 of the case."
 )
 ASSUMPTIONS = ["coherent costs before and after every transformation", "fresh names never look like O#/S#/NoName"]
-BUDGET = {"quick": {"random": 3000}, "thorough": {"random": 40000}}
+BUDGET = {"quick": {"random": 3000}, "thorough": {"random": 24000}}
 ALGOS = ["thl", "ext_spfs", "superdtl", "base_spfs", "base_uspfs"]
 SET_LIMIT_LEAVES = 6
 
